@@ -168,6 +168,7 @@ def check(tier: str) -> Result:
     from . import move_rules
     n_mv = move_rules.add_obligations(res, tree, "C04.R11", scope="mask")
     n_lbf += lbf_rules.occupancy_obligations(res, tree, "C04.R5")
+    move_rules.negative_sentinel_obligations(res, tree, "C04.R12")
     res.analysed = {"environments_with_mask": mask_envs, "step_consults_state_mask": reads_mask, "mask_vs_validity": r3b,
                     "axis_typed_sites": n_axis, "table_pairings": n_tab, "paired_reset_step_mask_call_arguments": n_pc}
     res.assumptions = ["records are not aliased across names inside step", "exceptions: none"]
